@@ -618,13 +618,65 @@ Definition c03_str (w : Z) (q : Z * (Z * Z * Z)) : bool :=
   let '(_, (s, b, _)) := q in negb (s =? ST_WAITING) || (w - b <=? 0) || (b <? neg62).
 Definition c03_obs (ob : sobs) : bool := forallb (c03_str (o_oiws ob)) (o_strs ob).
 
-Fixpoint c03_from (i : Z) (ops : list op) (obs : list sobs) : list (Z * Z * bool) :=
+(* clauses 22 and 23 look at one processData call: P is the state observed before it, ob after it.
+   22 progress: connection quota (sendQuota <> 0), a head stream with stream credit => the call
+      writes a DATA frame of that stream first and does not report isEmpty;
+   23 round robin: the active list afterwards is the rest in unchanged order, or the rest with the
+      served stream re-queued at the tail; without quota / without active streams it is unchanged. *)
+Definition init_sobs : sobs := mkO 0 false [] defaultWindow defaultWindow false [] [].
+Definition credit (P : sobs) (id : Z) : bool :=
+  match aget id (o_strs P) with
+  | Some (_, b, _) => (0 <? o_oiws P - b) && (neg62 <=? b)
+  | None => false
+  end.
+Definition head_data (id : Z) (fs : list frame) : bool :=
+  match fs with FData i _ _ _ :: _ => i =? id | _ => false end.
+Definition c22 (P : sobs) (o : op) (ob : sobs) : bool :=
+  match o with
+  | OProcess =>
+    if executed (o_code ob) then
+      match o_act P with
+      | id :: _ => if negb (o_sq P =? 0) && credit P id
+                   then head_data id (o_frames ob) && negb (o_empty ob) else true
+      | [] => true
+      end
+    else true
+  | _ => true
+  end.
+Definition c23 (P : sobs) (o : op) (ob : sobs) : bool :=
+  match o with
+  | OProcess =>
+    if executed (o_code ob) then
+      match o_act P with
+      | id :: rest => if o_sq P =? 0 then word_eqb (o_act ob) (o_act P)
+                      else word_eqb (o_act ob) rest || word_eqb (o_act ob) (rest ++ [id])
+      | [] => word_eqb (o_act ob) []
+      end
+    else true
+  | _ => true
+  end.
+
+(* 24: processData reports isEmpty exactly when it could not serve anybody (no connection quota or
+   no active stream); a call that dequeued a stream must report false, otherwise run() stops
+   although other streams may be active *)
+Definition c24 (P : sobs) (o : op) (ob : sobs) : bool :=
+  match o with
+  | OProcess =>
+    if executed (o_code ob)
+    then Bool.eqb (o_empty ob) ((o_sq P =? 0) || match o_act P with [] => true | _ => false end)
+    else true
+  | _ => true
+  end.
+
+Fixpoint c03_from (i : Z) (P : sobs) (ops : list op) (obs : list sobs) : list (Z * Z * bool) :=
   match ops, obs with
-  | _ :: r, ob :: r' => (21, i, c03_obs ob) :: c03_from (i + 1) r r'
+  | o :: r, ob :: r' =>
+    (21, i, c03_obs ob) :: (22, i, c22 P o ob) :: (23, i, c23 P o ob) :: (24, i, c24 P o ob) ::
+    c03_from (i + 1) ob r r'
   | [], [] => []
   | _, _ => [(0, i, false)]
   end.
-Definition c03 (ops : list op) (obs : list sobs) : list (Z * Z * bool) := c03_from 0 ops obs.
+Definition c03 (ops : list op) (obs : list sobs) : list (Z * Z * bool) := c03_from 0 init_sobs ops obs.
 Definition clauses_C03 := clauses_of c03.
 Definition holds_C03 (ops obs : list word) : bool := all_ok (clauses_C03 ops obs).
 Definition check_case_C03 (c : case) : verdict :=
